@@ -212,8 +212,16 @@ def run_path(h, params, prefix, timeout_ms, stats, viol_budget, selfcheck):
         for e_ in extra:
             c._activate(e_)
         tie_only = False
-        for attempt in range(4):
-            if attempt == 1 and c.ties:
+        interior = list(c.margins)
+        for attempt in range(5):
+            if attempt == 0 and interior:
+                # first choice: a model in the interior of the path (strict versions of the decided comparisons, no rounding
+                # tie): there IEEE floats and the exact-decimal model agree, so the replay is meaningful
+                pref = extra + interior + ([z3.Not(z3.Or(c.ties))] if c.ties else [])
+                r = c.check(*pref)
+                if r != "sat":
+                    r = c.check(*extra)
+            elif attempt == 1 and c.ties:
                 # refinement: exclude exact rounding ties (DESIGN 2.4.2)
                 noties = z3.Not(z3.Or(c.ties))
                 r = c.check(*(extra + [noties]))
@@ -273,7 +281,10 @@ def run_path(h, params, prefix, timeout_ms, stats, viol_budget, selfcheck):
                     c._activate(x_.v)
                 elif isinstance(x_, core.SymTime):
                     c._activate(x_.us)
-        r = c.check(z3.Not(z3.Or(c.ties))) if c.ties else c.check()
+        pref = list(c.margins) + ([z3.Not(z3.Or(c.ties))] if c.ties else [])
+        r = c.check(*pref) if pref else c.check()
+        if r != "sat" and pref:
+            r = c.check(z3.Not(z3.Or(c.ties))) if c.ties else c.check()
         if r == "sat":
             m = c.solver.model()
             values = model_values(c, m)
